@@ -114,6 +114,9 @@ def main():
         elif args[i] == '--replay':
             replay = args[i + 1]
             i += 2
+        elif args[i] in ('quick', 'thorough'):
+            tier = args[i]
+            i += 1
         else:
             i += 1
     if tier not in ('quick', 'thorough'):
